@@ -6,6 +6,7 @@ import Firefly.Proof.AmlPasses
 import Firefly.Proof.AmlFirstPassG
 import Firefly.Proof.AmlMerge
 import Firefly.Proof.AmlPrint
+import Firefly.Proof.AmlStrict
 /-!
 # C12 — Malformed AML is rejected with an error, never a crash, hang or stray pointer
 
@@ -288,10 +289,14 @@ What is proved towards them, each piece named for what it is:
 | `resolve_loop_no_panic_WF` | `resolveLoopPasses` (merge + relocate until stable) | never `.panic`, `MergeInv` (so `C13.WF`) kept; number of passes / fuel NOT bounded |
 | `merge_no_panic_WF` | `mergeScopeDirectives` (moves contents, frees the directive) | never `.panic`, `C13.WF` kept, only live slots freed; under `MergeInv` (shape of `Scope` directives: hypothesis, kept); fuel bound NOT proved |
 
-Not covered by any theorem: the export of the shape hypotheses (`MergeInv`, `CallShape`) by the first pass,
-`parseDeferredBlocks` (the strict
-re-parse in `parseModeAllBlocks`), the fuel bound of the tree walks, and the composition into `parseAML`.  These are decided per input by the oracle on the real
-code and by the model-vs-implementation correspondence.
+| `deferred_block_no_panic_WF` | `parseDeferred(obj)`: the strict re-parse (`parseModeAllBlocks`) of ONE deferred block — `parseObjectArgs`, `parseArgs`, `parseArg`, `parseStrictTermArg`, `parseTarget`, `parseNextObject`, `parseNamePathOrMethodCall` with method calls, `parseFieldElements` | never `.panic`, `C13.WF` kept after success and failure, old objects kept under their parents; on success every `Method` has its flags again; under the hypotheses `MethodsHaveFlags`, no `Method` on the scope stack, the block object attached under a non-`Method` (hypotheses, evaluated by the oracle in front of every block); fuel NOT bounded |
+| `deferred_block_checks_sound` | the oracle's executable checks imply the hypotheses of `deferred_block_no_panic_WF` | the checks run on the model's walk in front of every `parseDeferred` of every replayed input |
+
+Not covered by any theorem: the export of the shape hypotheses (`MergeInv`, `CallShape`, `MethodsHaveFlags`) by the
+first pass, the walk `parseDeferredBlocks` over all blocks (that the hypotheses of one block hold again for the next
+one; the per-block theorem gives `MethodsHaveFlags`, the scope stack and `C13.WF` back, not the facts about the next
+block object), the fuel bound of the tree walks and of the strict parse, and the composition into `parseAML`.  These
+are decided per input by the oracle on the real code and by the model-vs-implementation correspondence.
 
 `AmlParser.firstPass` is `p.init(…); p.scopeEnter(0); p.parseObjectList()` — everything `ParseAML` does before
 the tree passes (`AmlParser.parseAML_eq`: `parseAML = firstPass >>= afterFirstPass`).
@@ -468,6 +473,51 @@ theorem print_total (t : ObjectTree) (w : C13.WF t) (hroot : C13.live t 0 = true
     (hp : ∀ x, C13.live t x = true → AmlParser.PrintOK t x) :
     Replay.Aml.printWalk t (Replay.Aml.printFuel t) 0 = .ok () ∧ Replay.Aml.printOutcome t = "ok" :=
   AmlParser.print_total' w hroot hp
+
+/-! ### the strict pass, one deferred block
+
+`MethodsHaveFlags t` (`AmlParser.S.MS none t`): every live `Method` object of `t` has a first and a second argument
+and the second holds an integer — what `parseNamePathOrMethodCall` reads without a check
+(`ArgAt(target, 1).value.(uint64)`).  `BlockOK s obj` (`AmlParser.S.BlockOK`): `obj` is live, its table row is
+one the argument parser understands (`rowFacts`), it is not a `Method`, and it hangs under an object that is not a
+`Method`.  `AmlParser.G.FP d s`: reader inside the table, `TreeG` pool, every scope-stack entry live. -/
+
+/-- **One deferred block never panics and keeps the pool well-formed.**  For every table `d` shorter than
+2^32 − 2^28 bytes, every fuel and every parser state `s` with a well-formed pool in which every `Method` has its
+flags, no `Method` is on the scope stack, and with room for 16 objects per table byte: `parseDeferred(obj)` — the
+re-parse of a deferred object's arguments in `parseModeAllBlocks`, with everything it calls (`parseObjectArgs`,
+`parseArgs`, `parseArg`, `parseStrictTermArg`, `parseTarget`, `parseNextObject`, `parseNamePathOrMethodCall`
+including the lookup, the method-call conversion and the argument loop, `parseFieldElements`, `popPkgEnd`, every
+decoder and every tree operation) — does not end in `.panic`: no nil dereference of `scopeCurrent()`, `ObjectAt`
+or `ArgAt(target, 1)`, no failed type assertion on the flags of a method, no opcode-table index out of range, no
+`scopeExit` on an empty stack, and every `append` / `detach` is called inside its contract.  In whatever state it
+returns — `ok` or `failed` — the pool satisfies `C13.WF`, the root is live, table indices are in range, the
+reader is inside the table, every scope-stack entry is live, and every object that existed is still live under
+the same parent.  On success every `Method` — also the ones the block declared — has its flags, and the scope
+stack is as it was.  (The model's fuel may run out: the fuel bound of the strict parse is not proved.) -/
+theorem deferred_block_no_panic_WF (d : Bytes) (hd : d.size + 268435456 ≤ 4294967296) (fuel obj : Nat)
+    (s : AmlParser.PState) (h : AmlParser.G.FP d s) (hnm : AmlParser.S.StackNM s)
+    (hms : AmlParser.S.MS none s.tree) (hobj : AmlParser.S.BlockOK s obj)
+    (hbud : s.tree.pool.size + 16 * d.size + 16 ≤ 4294967295) :
+    AmlParser.NPs (AmlParser.parseDeferred d fuel obj) s (fun res s' =>
+      C13.WF s'.tree ∧ C13.live s'.tree 0 = true ∧
+      (∀ i, C13.live s'.tree i = true → (opFlags (C13.slot s'.tree i).infoIndex).isSome = true) ∧
+      s'.r.offset ≤ d.size ∧ s'.r.pkgEnd ≤ d.size ∧ (∀ x ∈ s'.scopeStack.toList, C13.live s'.tree x = true) ∧
+      (∀ x, C13.live s.tree x = true → C13.live s'.tree x = true ∧ C13.P s'.tree x = C13.P s.tree x) ∧
+      (res = .ok → AmlParser.S.MS none s'.tree ∧ s'.scopeStack = s.scopeStack)) := by
+  refine (AmlParser.S.parseDeferred_np hd fuel obj h hnm hms hobj hbud).mono ?_
+  intro res s' ⟨h', hold, hok⟩
+  exact ⟨h'.tree.wf, h'.tree.root, h'.tree.info, h'.inv.1, h'.inv.2, h'.scopes, hold, hok⟩
+
+/-- **The oracle's checks of the block hypotheses are sound**: when `blockAudit d s obj` reports nothing, `s` and
+`obj` satisfy every hypothesis of `deferred_block_no_panic_WF`.  The replay driver evaluates `blockAudit` on the
+model's state in front of every `parseDeferred` of every input (`auditDeferredBlocks`, the walk of
+`parseDeferredBlocks` with the check added) and reports a violation as `clause=shape-hypothesis`. -/
+theorem deferred_block_checks_sound (d : Bytes) (s : AmlParser.PState) (obj : Nat)
+    (h : AmlParser.blockAudit d s obj = []) :
+    AmlParser.G.FP d s ∧ AmlParser.S.StackNM s ∧ AmlParser.S.MS none s.tree ∧ AmlParser.S.BlockOK s obj ∧
+    s.tree.pool.size + 16 * d.size + 16 ≤ 4294967295 :=
+  AmlParser.S.blockAudit_sound h
 
 /-- the state the first pass returns satisfies the hypothesis of the tree-pass theorems -/
 theorem first_pass_gives_TreeInv (d : Bytes) (s : AmlParser.PState) (h : AmlParser.G.FP d s) : AmlParser.TP s :=
